@@ -359,6 +359,8 @@ def run(pid, extra=None):
                         r.violation("%s:%s" % (sig, fault_of(jobs)), "%s, random schedule: %s" % (cfg, desc), {"cfg": cfg, "jobs": jobs, "schedule_tail": tail})
         if pid == "C12":
             handshake_thread_failure(r)
+        if pid == "C11":
+            write_across_reconnect(r)
     finally:
         roots.close()
     if extra is not None:
@@ -371,6 +373,110 @@ def run(pid, extra=None):
         "exactly one managed thread runs at a time; threads can be preempted only at Lock / Queue operations (all inter-thread communication of this code goes through them)",
         "the Noise server double mirrors WhatsApp's symmetric-state variant and decrypts strictly in counter order"]
     return r.finish()
+
+
+def write_across_reconnect(r):
+    """A sender is inside its two-part socket write (length header written, payload not yet) when the connection goes down and the
+    application reconnects at once: whatever remains of that write belongs to the dead connection - the bytes reaching the NEW connection are
+    its own prologue and whole frames only (real threads; the blocked write is released before or after the reconnect, whichever the code allows)."""
+    import threading
+    from yowsup.layers import YowLayer
+    from yowsup.structs import ProtocolTreeNode
+    for variant in ("header", "payload"):
+        r.case(("write-across-reconnect", variant))
+        r.cov["traces_validated_against_impl"] += 1
+        World.N += 1
+
+        class Top(YowLayer):
+            def __init__(top):
+                YowLayer.__init__(top)
+                top.up = []
+
+            def receive(top, node):
+                top.up.append(node)
+        srv1 = NoiseServer()
+        rig = transportkit.TransportRig(e2ekit.make_profile("49157708%05d" % World.N), srv1, top_cls=Top, reply_inline=True)
+        errors = []
+        old_hook = threading.excepthook
+        threading.excepthook = lambda a: errors.append(a.exc_type.__name__)
+        blocked, release = threading.Event(), threading.Event()
+        try:
+            if rig.login() != "transport":
+                raise core.MachineryError("first login of the rig failed")
+            d1 = rig.dispatchers[-1]
+            orig_send = d1.sendData
+            count = {"n": 0}
+
+            def slow_send(data, orig_send=orig_send):
+                # the socket write of connection 1 blocks on the chosen part of the two-part write
+                count["n"] += 1
+                if count["n"] == (1 if variant == "header" else 2):
+                    blocked.set()
+                    release.wait(10)
+                    if not d1.open:
+                        return          # the socket is gone: the write fails / is discarded
+                orig_send(data)
+            d1.sendData = slow_send
+            a = threading.Thread(target=lambda: rig.top.toLower(ProtocolTreeNode("iq", {"id": "inflight", "type": "get", "xmlns": "w:p"})))
+            a.daemon = True
+            a.start()
+            if not blocked.wait(5):
+                raise core.MachineryError("the sender never reached the socket write")
+            d1.open = False
+            def connection_lost():
+                # the network layer announces DISCONNECTED through the stack loop (a deferred callback): run it, as the loop would,
+                # before anything reconnects (a connect overtaking it is C16's recorded finding, not this scenario)
+                import yowsup.stacks.yowstack as ys
+                rig.net.onDisconnected()
+                q = ys.YowStack._YowStack__detachedQueue
+                while q.qsize():
+                    q.get(False)()
+            b = threading.Thread(target=connection_lost)
+            b.daemon = True
+            b.start()
+            b.join(0.6)
+            if b.is_alive():
+                # the stack makes the disconnect wait for the write in progress: let the write finish first
+                release.set()
+                b.join(5)
+                a.join(5)
+            srv2 = NoiseServer(static=srv1.static)
+            rig.server = srv2
+            problems = []
+            try:
+                state = rig.login()
+                release.set()
+                a.join(5)
+                b.join(5)
+                time_ok = not a.is_alive() and not b.is_alive()
+                if not time_ok:
+                    problems.append(("wedged", "the sender / the disconnect handling did not finish"))
+                # a stanza on the new connection: the server must be able to follow the byte stream
+                rig.top.toLower(ProtocolTreeNode("iq", {"id": "fresh", "type": "get", "xmlns": "w:p"}))
+            except ProtocolError as e:
+                problems.append(("wire:foreign-bytes", "the new connection's server cannot follow the byte stream: %s" % e))
+                state = None
+            if state is not None and state != "transport":
+                problems.append(("wire:login-failed", "the login after the reconnect ended in state %r" % state))
+            elif state == "transport":
+                from yowsup.layers.coder.decoder import ReadDecoder
+                from yowsup.layers.coder.tokendictionary import TokenDictionary
+                try:
+                    ids = [ReadDecoder(TokenDictionary()).getProtocolTreeNode(bytearray(x))["id"] for x in srv2.received]
+                except Exception as e:
+                    ids = ["undecodable: %r" % (e,)]
+                if ids != ["fresh"]:
+                    problems.append(("wire:foreign-frames", "the new connection carried %s, only 'fresh' was sent on it" % ids))
+            for sig, desc in problems:
+                r.violation("%s:write-across-reconnect" % sig, "sender blocked in the %s part of its socket write while the connection dropped and was re-established: %s (thread errors %s)" % (
+                    variant, desc, errors), {"scenario": "write-across-reconnect", "variant": variant})
+        finally:
+            release.set()
+            threading.excepthook = old_hook
+            try:
+                rig.net.onDisconnected()
+            except Exception:
+                pass
 
 
 def handshake_thread_failure(r):
